@@ -118,7 +118,12 @@ fn mt_premise(key: &str) -> bool {
 
 pub fn check(prop: &str, cx: &Cx, rep: &mut Report) {
     if cx.tr.inconclusive() {
+        // step cap / watchdog: nothing can be concluded from what did *not* happen, but a bounded-progress rule
+        // over the recorded prefix is still sound: an accepted stop must not be starved by an endless stream
         rep.inconclusive = true;
+        if prop == "C13" || prop == "C04" {
+            stop_starvation(prop, cx, rep);
+        }
         return;
     }
     match prop {
@@ -152,6 +157,25 @@ pub fn check(prop: &str, cx: &Cx, rep: &mut Report) {
                 let name: &'static str = Box::leak(format!("L2:{k}").into_boxed_str());
                 rep.premises.insert(name, n);
             }
+        }
+    }
+}
+
+/// After an accepted stop request has returned, a stream-attached actor handles at most 200 further stream items
+/// (the unchanged loop takes the mailbox with probability 1/2 per iteration).  Prefix-safe: also evaluated on
+/// executions that hit the step cap, where it is the only rule evaluated.
+pub fn stop_starvation(prop: &str, cx: &Cx, rep: &mut Report) {
+    use crate::log::{K, Mk, OpK, Res};
+    let ix = cx.ix;
+    let (p, rule, key): (&'static str, &'static str, &'static str) = if prop == "C13" { ("C13", "R5", "C13.R5.bounded_progress_after_stop") } else { ("C04", "R3", "C04.R3.stop_not_starved_by_stream") };
+    for d in cx.prog.actors.iter().filter(|d| d.entry.stream()) {
+        let Some(task) = ix.task_of(d.tag) else { continue };
+        let acc = ix.ops.iter().filter(|o| o.tag == d.tag && o.op == OpK::Stop && matches!(o.res, Some(Res::Ok))).filter_map(|o| o.e).min();
+        let Some(acc) = acc else { continue };
+        let after = ix.ev.iter().filter(|e| e.stamp > acc && matches!(&e.k, K::HIn { mk: Mk::Item, actor, .. } if *actor == task)).count();
+        rep.premise(key);
+        if after > 200 {
+            rep.fail(p, rule, "stop_starved", format!("stream actor tag {}: {after} items handled after an accepted stop returned at #{acc}", d.tag), vec![acc]);
         }
     }
 }
